@@ -635,6 +635,10 @@ impl<'a> Searcher<'a> {
                         Ok(entry) => {
                             let path = entry.path();
                             let pass_ignores = if apply_gitignore || apply_hgignore || apply_dockerignore {
+                                // absolute path of the entry itself: the path as spelled is relative to the
+                                // current directory, which the repository knows nothing about
+                                #[cfg(feature = "git")]
+                                let absolute_path = Path::new(&canonical_path).join(entry.file_name());
                                 let mut canonical_path = path.clone();
 
                                 if apply_gitignore || apply_hgignore || apply_dockerignore {
@@ -647,7 +651,7 @@ impl<'a> Searcher<'a> {
                                 #[cfg(feature = "git")]
                                 let pass_gitignore = !apply_gitignore
                                     || !(git_repository.is_some() &&
-                                    git_repository.unwrap().is_path_ignored(&path)
+                                    git_repository.unwrap().is_path_ignored(&absolute_path)
                                         .unwrap_or(false));
                                 #[cfg(not(feature = "git"))]
                                 let pass_gitignore = true;
